@@ -11,7 +11,7 @@ PROP = "C05"
 LEAN_MODULES = ["LunaVerif.Props.C05"]
 DRIVER = "Driver/C05.lean"
 REQUIRED_THEOREMS = ["timer_strobes_exact", "timer_strobe_at_cycle", "fs_only_never_uses_other_tables",
-                     "specTable_from_bit_times"]
+                     "specTable_from_bit_times", "start_is_reset", "run_after_start_eq_run_from_reset"]
 RULE = ("cases = (domain clock, fs_only, #interfaces) x stimulus kind; kinds: run from reset to saturation at a "
         "fixed speed; sweep = restart the timer at chosen counter values (thorough: at EVERY counter value "
         "0..counter_max+3, for every configuration and every 2-bit speed value); random start strobes on both "
